@@ -584,15 +584,22 @@ static void run_partitions_state(const State& s, Stats& st) {
 		pi.partID = (uint16_t) id;
 		info.push_back(pi);
 	}
-	for (int del = -1; del < NV; del++) {
+	// del = -2: no vertex is deleted, the empty partitions are removed instead (the other renumbering operation)
+	for (int del = -2; del < NV; del++) {
 		x.del = del;
 		NifFile nif;
 		NiShape* shape = build_skinned(nif, s, tris);
 		if (!shape) { viol(x, "build", "create-returns-null", "CreateShapeFromData returned nullptr"); return; }
 		st.add("ops_set_partitions");
-		if (del < 0) st.add("transitions");
+		if (del == -1) st.add("transitions");
 		nif.SetShapePartitions(shape, info, s.labels);
 		std::string when = "after-set";
+		if (del == -2) {
+			st.add("transitions");
+			st.add("ops_remove_empty_partitions");
+			nif.RemoveEmptyPartitions(shape);
+			when = "after-remove-empty";
+		}
 		if (del >= 0) {
 			st.add("transitions");
 			st.add("ops_delete_vertex");
